@@ -51,11 +51,12 @@ fn keys(ctx: &Ctx) -> Vec<Keys> {
     specs.push(Spec::simple(false, Alg::EcdsaP384, Some(Alg::EcdhP384)));
     specs.push(Spec::simple(true, Alg::Ed448, Some(Alg::X448)));
     specs.push(Spec::simple(false, Alg::Rsa2048, Some(Alg::Rsa2048)));
+    // a v6 key that accepts every hash (the EC keys refuse the shorter digests by policy)
+    specs.push(Spec::simple(true, Alg::Rsa2048, None));
     if !ctx.quick() {
         specs.push(Spec::simple(true, Alg::EcdsaP521, Some(Alg::EcdhP521)));
         specs.push(Spec::simple(false, Alg::EcdsaK256, None));
         specs.push(Spec::simple(false, Alg::Dsa2048, None));
-        specs.push(Spec::simple(true, Alg::Rsa2048, None));
     }
     specs
         .into_iter()
@@ -139,6 +140,13 @@ fn judge_sign(ctx: &mut Ctx, what: &str, sig: &Signature, seen: Vec<crate::rec::
         return;
     };
     let vclass = format!("v{}", rs.version);
+    if rs.version == 6 && Some(rs.salt.len()) != rfc::salt_len(rs.hash_alg) {
+        ctx.violation(
+            format!("C11/sign/{what}/v6/salt-size"),
+            format!("v6 signature with hash {} carries a {}-octet salt, RFC 9580 table 23 requires {:?}", rs.hash_alg, rs.salt.len(), rfc::salt_len(rs.hash_alg)),
+            json!({"base": replay, "sig": hexs(&body)}),
+        );
+    }
     if seen.len() != 1 {
         ctx.violation(format!("C11/sign/{what}/{vclass}/signer-called-{}-times", seen.len()), "expected exactly one call of the signing primitive", replay);
         return;
@@ -288,7 +296,7 @@ pub fn run(ctx: &mut Ctx) {
         let pubkey = k.key.primary_key.public_key().clone();
         let kf = key_hash_framing(&k.prim_body);
         let skf = k.sub_body.as_ref().map(|b| key_hash_framing(b));
-        let mut hashes: Vec<(u8, HashAlgorithm)> = if slow { vec![HASHES[0]] } else if quick { HASHES[..4].to_vec() } else { HASHES.to_vec() };
+        let mut hashes: Vec<(u8, HashAlgorithm)> = if slow { if quick { vec![HASHES[0], HASHES[3]] } else { HASHES.to_vec() } } else if quick { HASHES[..4].to_vec() } else { HASHES.to_vec() };
         // hash algorithms the key's primitive refuses as too weak (documented policy) are not used
         hashes.retain(|h| {
             let d = vec![0x5Au8; rfc::hash_len(h.0).unwrap_or(32)];
